@@ -220,15 +220,31 @@ def check(ctx):
     stp = {norm(s.targets[0]): norm(s.value) for s in sorted([s for s in walk_own(par.node) if isinstance(s, ast.Assign)], key=lambda s: s.lineno) if isinstance(s.targets[0], ast.Name)}
     rt = [n for n in gp.nodes if n.kind == 'return' and norm(n.ast.value) == 'True']
     ok = len(rt) == 1 and fact_key('test_crc == crc', True) in gp.fact_keys_at(rt[0]) and stp.get('crc') == '%s[-1]' % d and stp.get('test_crc') == 'crc32(%s[:-1]) & 255' % d
+    if not ok and len(rt) == 1:
+        # the same test under other names, or written out: the tests that guard `return True`, with the locals read through
+        crc_a, crc_b = 'crc32(%s[:-1]) & 255' % d, '%s[-1]' % d
+        for k_ in gp.fact_keys_at(rt[0]):
+            try:
+                e_ = ast.parse(k_[0], mode='eval').body
+            except SyntaxError:
+                continue
+            if isinstance(e_, ast.Compare) and len(e_.ops) == 1 and isinstance(e_.ops[0], (ast.Eq, ast.NotEq)):
+                sides = {norm(gp.expand_locals(rt[0], e_.left, stable=True)), norm(gp.expand_locals(rt[0], e_.comparators[0], stable=True))}
+                if sides == {crc_a, crc_b} and k_[1] == isinstance(e_.ops[0], ast.Eq):
+                    ok = True
     ctx.inst('R2', par, 'ow-elements-valid', ok, 'elements accepted only with last byte == crc32(all but last) & 0xff')
     lp = [w for w in walk_own(par.node) if isinstance(w, ast.While)]
     okw = len(lp) == 1 and norm(lp[0].test) == 'len(elem_data) > 0'
     bd = [norm(s) for s in lp[0].body] if lp else []
     okw = okw and bd == ["eid, elen = struct.unpack('BB', elem_data[:2])", "self.elements[self.element_mapping[eid]] = elem_data[2:2 + elen].decode('ISO-8859-1')", 'elem_data = elem_data[2 + elen:]']
+    area = None
     if not okw and len(lp) == 1:
-        okw = tlv_by_offset(par, lp[0])
+        area = tlv_by_offset(par, lp[0])
+        okw = bool(area)
+        if area:
+            area = norm(gp.expand_locals(gp.nodes_containing(lp[0].test)[0], ast.parse(area, mode='eval').body, stable=True)) if gp.nodes_containing(lp[0].test) else area
     ctx.inst('R3', par, 'tlv-walk', okw, 'TLV walk: (id, len) from 2 bytes, value of len bytes, advance 2 + len; body %s' % bd)
-    ctx.inst('R3', par, 'tlv-area', 'elem_data = %s[2:-1]' % d in [norm(s) for s in walk_own(par.node) if isinstance(s, ast.Assign)], 'TLVs lie between the 2-byte (version, length) prefix and the CRC')
+    ctx.inst('R3', par, 'tlv-area', 'elem_data = %s[2:-1]' % d in [norm(s) for s in walk_own(par.node) if isinstance(s, ast.Assign)] or area == '%s[2:-1]' % d, 'TLVs lie between the 2-byte (version, length) prefix and the CRC')
     wl = [l for l in walk_own(ow_w.node) if isinstance(l, ast.For)]
     wb = [norm(s) for s in wl[0].body] if wl else []
     owimg = byte_image(ow_w, lambda c: method_call(c, 'write') and norm(c.func.value) == 'self.mem_handler')
@@ -521,13 +537,14 @@ def tlv_by_offset(par, loop):
     sc = Scope.of(par)
     t = loop.test
     if not (isinstance(t, ast.Compare) and len(t.ops) == 1 and isinstance(t.ops[0], ast.Lt) and isinstance(t.left, ast.Name) and
-            isinstance(t.comparators[0], ast.Call) and norm(t.comparators[0].func) == 'len' and len(t.comparators[0].args) == 1 and isinstance(t.comparators[0].args[0], ast.Name)):
+            isinstance(t.comparators[0], ast.Call) and norm(t.comparators[0].func) == 'len' and len(t.comparators[0].args) == 1):
         return False
-    pos, buf = t.left.id, t.comparators[0].args[0].id
+    # the buffer: a local, or an expression over names the loop does not touch (`data[2:-1]` written out at each use)
+    pos, buf = t.left.id, norm(t.comparators[0].args[0])
+    if any(isinstance(n, ast.Name) and isinstance(n.ctx, ast.Store) and n.id in {x.id for x in ast.walk(t.comparators[0].args[0]) if isinstance(x, ast.Name)} for n in ast.walk(loop)):
+        return False
     init = [s_ for s_ in walk_own(par.node) if isinstance(s_, ast.Assign) and norm(s_.targets[0]) == pos and s_.lineno < loop.lineno]
     if not init or fold_in(par, init[-1].value) != 0:
-        return False
-    if any(isinstance(n, ast.Name) and n.id == buf and isinstance(n.ctx, ast.Store) for n in ast.walk(loop)):
         return False
     env = {}
 
@@ -557,7 +574,9 @@ def tlv_by_offset(par, loop):
             if st.targets[0].id in (head or ()):
                 return False
             env[st.targets[0].id] = sub(st.value)
-        elif isinstance(st, ast.Assign) and len(st.targets) == 1 and norm(st.targets[0]) == 'self.elements[self.element_mapping[%s]]' % (head[0] if head else '?'):
+            continue
+        elif isinstance(st, ast.Assign) and len(st.targets) == 1 and isinstance(st.targets[0], ast.Subscript) and \
+                norm(sub(st.targets[0])) == 'self.elements[self.element_mapping[%s]]' % (head[0] if head else '?'):
             v = st.value
             if not (isinstance(v, ast.Call) and isinstance(v.func, ast.Attribute) and v.func.attr == 'decode' and [norm(a) for a in v.args] == ["'ISO-8859-1'"] and
                     isinstance(v.func.value, ast.Subscript) and norm(v.func.value.value) == buf and isinstance(v.func.value.slice, ast.Slice)):
@@ -577,7 +596,7 @@ def tlv_by_offset(par, loop):
             return False
     if head is None or not value or pos not in env:
         return False
-    return _canon(env[pos], sc) == _canon(ast.parse('%s + 2 + %s' % (pos, head[1]), mode='eval').body, sc)
+    return _canon(env[pos], sc) == _canon(ast.parse('%s + 2 + %s' % (pos, head[1]), mode='eval').body, sc) and buf
 
 
 VARIANTS = [
